@@ -196,7 +196,21 @@ class SymArray(np.ndarray):
                     raise ValueError("zero-size array to reduction operation %s which has no identity" % ufunc.__name__)
             if kwargs.get("initial", None) is None:
                 kwargs.pop("initial", None)
-            r = f.reduce(a, **kwargs)
+            axes = _axes(kwargs.get("axis", 0), a.ndim) if a.ndim else ()
+            if len(axes) > 1:
+                # frompyfunc reductions take one axis at a time
+                kd = kwargs.pop("keepdims", False)
+                kwargs.pop("axis", None)
+                r = a
+                for ax in sorted(axes, reverse=True):
+                    r = f.reduce(r, axis=ax, keepdims=True, **kwargs)
+                    kwargs.pop("initial", None)
+                if not kd:
+                    r = r.reshape(tuple(n for i, n in enumerate(r.shape) if i not in axes))
+            elif a.ndim == 0:
+                r = a
+            else:
+                r = f.reduce(a, **kwargs)
         elif method == "accumulate":
             r = f.accumulate(as_obj(raw[0]), **kwargs)
         elif method == "at":
